@@ -224,6 +224,33 @@ pub fn decode_full(b: &[u8]) -> Result<Decoded, DecErr> {
     Ok(Decoded { rec, len: c.p, fields: c.fields })
 }
 
+/// Largest string length a decoder would be asked to allocate while decoding `b` (0 if none is reached).
+pub fn declared_alloc(b: &[u8]) -> u64 {
+    fn u32at(b: &[u8], p: usize) -> Option<u32> {
+        b.get(p..p + 4).map(|x| u32::from_be_bytes(x.try_into().unwrap()))
+    }
+    let Some(tag) = u32at(b, 0) else { return 0 };
+    match tag {
+        1 => u32at(b, 4 + 16).map(|n| n as u64).unwrap_or(0),
+        5 => {
+            // version, four option(ids), option(string)
+            let mut p = 5usize;
+            for _ in 0..4 {
+                match b.get(p) {
+                    Some(0) => p += 1,
+                    Some(1) => p += 17,
+                    _ => return 0,
+                }
+            }
+            match b.get(p) {
+                Some(1) => u32at(b, p + 1).map(|n| n as u64).unwrap_or(0),
+                _ => 0,
+            }
+        }
+        _ => 0,
+    }
+}
+
 pub fn decode(b: &[u8]) -> Result<(Rec, usize), DecErr> {
     decode_full(b).map(|d| (d.rec, d.len))
 }
